@@ -22,6 +22,9 @@ from .base import PropBase, St
 
 P = "C19"
 TYPES = ("CustomAuth", "CustomControl", "CustomFilter")
+ALT = {"CustomAuth": "AltAuth", "CustomControl": "AltControl", "CustomFilter": "AltFilter"}
+SLOT = {"CustomAuth": "auth", "AltAuth": "auth", "CustomControl": "control", "AltControl": "control",
+        "CustomFilter": "filter", "AltFilter": "filter"}
 
 
 # ------------------------------------------------------------------ child side (runs library code)
@@ -201,7 +204,8 @@ class C19(PropBase):
     BATCH = 25
     REQUIRED_REACH = ("custom_pdu_on_unregistered_session", "custom_pdu_on_registered_session", "duplicate_registration",
                       "registration_after_traffic", "same_type_registered_on_two_sessions", "interleavings_compared",
-                      "registration_semantics_checked", "unknown_result_code_on_two_sessions")
+                      "registration_semantics_checked", "unknown_result_code_on_two_sessions", "same_id_different_class_on_two_sessions",
+                      "send_failed_while_encoding")
 
     # ---------------------------------------------------------------- generation (no library code here)
 
@@ -222,7 +226,7 @@ class C19(PropBase):
         gs = []
         for i in range(init["nsessions"]):
             gs.append({"role": init["roles"][i], "model": Model(init["roles"][i]), "regs": set(), "n": 0, "next_req": 1,
-                       "plan_regs": [t for t in TYPES if rng.random() < 0.45]})
+                       "plan_regs": [(t if rng.random() < 0.6 else ALT[t]) for t in TYPES if rng.random() < 0.45]})
         return gs
 
     def next_op(self, st, rng):
@@ -241,7 +245,8 @@ class C19(PropBase):
     def _script_op(self, g, rng):
         model = g["model"]
         role = g["role"]
-        gen = Gen(rng, big=0.05, customs=sorted(g["regs"]))
+        gen = Gen(rng, big=0.05, customs=sorted(x for x in g["regs"] if x in TYPES))
+        genc = Gen(rng, big=0.05, customs=sorted(x for x in g["regs"] if x in TYPES), bad_text=0.02)  # call arguments only
         x = rng.random()
         # registrations (planned ones early or late; duplicates now and then)
         if x < 0.12:
@@ -250,8 +255,8 @@ class C19(PropBase):
                 t = rng.choice(todo)
                 g["regs"].add(t)
             else:
-                t = rng.choice(TYPES) if not g["regs"] or rng.random() < 0.3 else rng.choice(sorted(g["regs"]))
-                if t not in g["regs"] and rng.random() < 0.5:
+                t = rng.choice(TYPES + tuple(ALT.values())) if not g["regs"] or rng.random() < 0.3 else rng.choice(sorted(g["regs"]))
+                if SLOT[t] not in {SLOT[x] for x in g["regs"]} and rng.random() < 0.5:
                     g["regs"].add(t)
             from ..customtypes import REGISTER_METHOD
 
@@ -272,7 +277,7 @@ class C19(PropBase):
                 data = rfc4511.enc_msg(msg)
                 self._model_recv(g, data)
                 return {"k": "recv", "hex": data.hex(), "ba": rng.random() < 0.3}
-            c = policy.client_call(gen, model, illegal_p=0.2, allow_unbind=0.02)
+            c = policy.client_call(genc, model, illegal_p=0.2, allow_unbind=0.02)
             if c is None:
                 return {"k": "drain", "n": None}
             m, a, _ = c
@@ -291,11 +296,11 @@ class C19(PropBase):
             self._model_recv(g, data, custom=_uses_custom(msg))
             return {"k": "recv", "hex": data.hex(), "ba": rng.random() < 0.3}
         if rng.random() < 0.2:
-            m, a, _ = policy.server_any_call(gen, model, p_unbind=0.02)
+            m, a, _ = policy.server_any_call(genc, model, p_unbind=0.02)
         else:
-            c = policy.server_legal_call(gen, model, p_term=0.02)
+            c = policy.server_legal_call(genc, model, p_term=0.02)
             if c is None:
-                m, a, _ = policy.server_any_call(gen, model, p_unbind=0.0)
+                m, a, _ = policy.server_any_call(genc, model, p_unbind=0.0)
             else:
                 m, a = c
                 if rng.random() < 0.3:
@@ -339,14 +344,14 @@ class C19(PropBase):
                 msg["filter"] = {"t": "CustomFilter", "value": "w"}
                 which = "CustomFilter"
         data = rfc4511.enc_msg(msg)
-        fatal = which != "CustomControl" and which not in g["regs"]
+        fatal = which != "CustomControl" and SLOT[which] not in {SLOT[x] for x in g["regs"]}
         self._model_recv(g, data, fatal=fatal)
         return {"k": "recv", "hex": data.hex(), "custom": which}
 
     def _model_recv(self, g, data, fatal=False, custom=None):
         model = g["model"]
         if custom:
-            fatal = fatal or any(c != "CustomControl" and c not in g["regs"] for c in custom)
+            fatal = fatal or any(c != "CustomControl" and SLOT[c] not in {SLOT[x] for x in g["regs"]} for c in custom)
         if model.st == "CL":
             return
         if fatal:
@@ -431,13 +436,26 @@ class C19(PropBase):
                 elif op["k"] in ("call", "recv"):
                     traffic = True
                 if op.get("custom") and rec["state"] != "CLOSED" or (op.get("custom") and "exc" in rec):
-                    if op["custom"] in seen:
+                    if SLOT[op["custom"]] in {SLOT[t] for t in seen}:
                         st.hit("custom_pdu_on_registered_session")
                     else:
                         st.hit("custom_pdu_on_unregistered_session")
                         unreg_decode = True
                 if op["k"] in ("call", "recv") and any(str(c) in json.dumps(op.get("a", {})) + op.get("hex", "") for c in ()):
                     pass
+        oks = []
+        for i, v in per.items():
+            good = set()
+            for j, op in enumerate(v):
+                if op["k"] == "reg" and "exc" not in base[str(i)][j]:
+                    good.add(op["a"]["type"])
+                if op["k"] == "call" and base[str(i)][j].get("exc", [""])[0] == "UnicodeEncodeError":
+                    st.hit("send_failed_while_encoding")
+            oks.append(good)
+        for a in range(len(oks)):
+            for b in range(a + 1, len(oks)):
+                if any(SLOT[x] == SLOT[y] and x != y for x in oks[a] for y in oks[b]):
+                    st.hit("same_id_different_class_on_two_sessions")
         types_by_sess = [set(t for t in v) for v in regs.values()]
         for a in range(len(types_by_sess)):
             for b in range(a + 1, len(types_by_sess)):
